@@ -680,7 +680,6 @@ func (m *ldMachine) apply(i int, op ldOp) {
 	m.invariants(i, op)
 }
 
-
 // ---- liquidation of borrows (second-generation liquidation module) ----
 
 // thresholdOf returns the liquidation threshold that applies to borrow b: the collateral asset's, times the
